@@ -30,7 +30,6 @@ func checkC13(c *Ctx) {
 	r.Rule("R13.7", "relay through HTTPTransfer.Import pairs every dump with the cache it was requested for (obligations of C14 R14.2)", 2)
 	r.Rule("R13.6", "dumped keys are the stored (private) keys; GobRegister registers the given value itself with encoding/gob", 3)
 	r.NotDecided = []string{"encoding/gob's own behaviour", "round-trip equality of values", "partial import on a broken stream"}
-	info := c.Pkg.TypesInfo
 	c.withAlias(map[string]string{"R10.5": "R13.5"}, func() { c.c10TsInverse() })
 	// R13.6: what is dumped is what the cache holds and what gob was told about: stored keys are private copies (a dump must
 	// not carry keys the caller rewrote afterwards) and GobRegister registers the very value it was given
@@ -51,77 +50,90 @@ func checkC13(c *Ctx) {
 			continue
 		}
 		var decodeTarget types.Object
-		var decodeCall *ast.CallExpr
-		var loop *ast.ForStmt
-		ast.Inspect(fd.Body, func(n ast.Node) bool {
-			if fs, ok := n.(*ast.ForStmt); ok && loop == nil {
-				loop = fs
-			}
-			call, ok := n.(*ast.CallExpr)
-			if !ok {
-				return true
-			}
-			sel, ok := call.Fun.(*ast.SelectorExpr)
-			if !ok || sel.Sel.Name != "Decode" || len(call.Args) != 1 {
-				return true
-			}
-			if t := info.TypeOf(sel.X); t == nil || namedTypeName(t) != "Decoder" {
-				return true
-			}
-			decodeCall = call
-			if u, ok := ast.Unparen(call.Args[0]).(*ast.UnaryExpr); ok && u.Op == token.AND {
-				if id, ok := ast.Unparen(u.X).(*ast.Ident); ok {
-					decodeTarget = info.Uses[id]
-				}
-			}
-			return true
-		})
-		switch {
-		case decodeCall == nil || loop == nil:
-			r.Unknown("R13.1", name, "no gob Decode call inside a loop found")
-		case decodeTarget == nil:
-			r.Bad("R13.1", name, "decode-target-shape", c.Pos(decodeCall.Pos()), "Decode is not given the address of a local variable", nil)
-		case !(decodeTarget.Pos() >= loop.Body.Pos() && decodeTarget.Pos() <= loop.Body.End()):
-			r.Bad("R13.1", name, "decode-target-reused", c.Pos(decodeCall.Pos()),
-				"the decode target is declared outside the decoding loop: gob leaves untransmitted (zero) fields from the previous record and decodes K into the previous record's backing array", nil)
-		default:
-			// stored value must be the address of that variable
+		var decTargetType types.Type
+		// path-based: in every decoding iteration the record is decoded into storage created in that iteration (a variable declared
+		// in the loop body, new(T) or &T{} evaluated there) and exactly that storage is what gets stored
+		func() {
 			run := c.bk(b, name, false)
 			if run.err != nil {
 				r.Unknown("R13.1", name, run.err.Error())
-				break
+				return
 			}
-			stores, bad := 0, false
+			nDec, stores, bad := 0, 0, false
 			for _, p := range run.paths {
-				for _, ev := range p.Events {
-					var v *pw.Val
-					if b.Sharded && ev.Kind == pw.EvMapInsert && isShardData(ev) {
-						v = ev.Value
-					}
-					if !b.Sharded && isSyncStore(p, ev) {
-						v = ev.Args[1]
-					}
-					if v == nil {
+				for _, g := range iterations(p) {
+					if !g.inner {
 						continue
 					}
-					stores++
-					if !(v.Kind == pw.KAddr && v.Obj == decodeTarget) {
-						r.Bad("R13.1", name, "stored-not-target", c.Pos(ev.Pos), "the stored entry is not the freshly decoded variable", shortTrace(p))
+					var dec *pw.Event
+					for _, ev := range g.events {
+						if ev.Kind == pw.EvCall && strings.HasSuffix(ev.Role, "gob.Decoder.Decode") && len(ev.Args) == 1 {
+							dec = ev
+						}
+					}
+					if dec == nil {
+						continue
+					}
+					nDec++
+					tgt := dec.Args[0]
+					var lo, hi token.Pos
+					if dec.Loop != nil {
+						lo, hi = dec.Loop.Pos(), dec.Loop.End()
+						if fs, ok := dec.Loop.(*ast.ForStmt); ok {
+							lo, hi = fs.Body.Pos(), fs.Body.End()
+						}
+					}
+					fresh := false
+					switch {
+					case tgt == nil:
+					case tgt.Kind == pw.KAddr && tgt.Obj != nil:
+						fresh = tgt.Obj.Pos() >= lo && tgt.Obj.Pos() <= hi
+						decodeTarget = tgt.Obj
+						decTargetType = tgt.Obj.Type()
+					case tgt.Kind == pw.KAlloc:
+						fresh = tgt.Pos >= lo && tgt.Pos <= hi
+						decTargetType = derefType(tgt.Type)
+					}
+					if !fresh {
+						if !bad {
+							r.Bad("R13.1", name, "decode-target-reused", c.Pos(dec.Pos),
+								"the decode target is not created inside the decoding loop: gob leaves untransmitted (zero) fields from the previous record and decodes K into the previous record's backing array", shortTrace(p))
+						}
 						bad = true
+						continue
+					}
+					for _, ev := range g.events {
+						var v *pw.Val
+						if b.Sharded && ev.Kind == pw.EvMapInsert && isShardData(ev) {
+							v = ev.Value
+						}
+						if !b.Sharded && isSyncStore(p, ev) && len(ev.Args) > 1 {
+							v = ev.Args[1]
+						}
+						if v == nil {
+							continue
+						}
+						stores++
+						same := v == tgt || v.Kind == pw.KAddr && tgt.Kind == pw.KAddr && v.Obj == tgt.Obj
+						if !same && !bad {
+							r.Bad("R13.1", name, "stored-not-target", c.Pos(ev.Pos), "the stored entry is not the freshly decoded record", shortTrace(p))
+							bad = true
+						}
 					}
 				}
 			}
-			if stores == 0 {
+			switch {
+			case nDec == 0:
+				r.Unknown("R13.1", name, "no gob Decode call inside a loop found")
+			case bad:
+			case stores == 0:
 				r.Unknown("R13.1", name, "no store found")
-			} else if !bad {
-				r.OK("R13.1", name, "decode target declared per iteration and stored by address")
+			default:
+				r.OK("R13.1", name, "decode target created per iteration and stored itself")
 			}
-		}
+		}()
 		// R13.2 -------------------------------------------------------------------------------
-		var decType types.Type
-		if decodeTarget != nil {
-			decType = decodeTarget.Type()
-		}
+		decType := decTargetType
 		walk := c.bk(b, b.Name+".Walk", false)
 		var cbArgType types.Type
 		if walk.err == nil {
